@@ -29,7 +29,10 @@ def permanent_hosts(case):
     return [n for n in seen if n not in bad] or list(case['start'])
 
 
-def add_connection(rng, case, n_choices=1, group_prob=0.25, permanent_only=False):
+SMALL_SPECS = [['list', [0, 1]], ['list', [0, 1]], ['range', 0, 1], ['list', [1]], ['range', 0, 2]]
+
+
+def add_connection(rng, case, n_choices=1, group_prob=0.25, permanent_only=False, small=False):
     """append connector / grouping nodes and connection choices to a selection-choice case (ids are renumbered so that
     plain nodes stay 0..n-1 and choices follow)"""
     case = dict(case)
@@ -43,7 +46,9 @@ def add_connection(rng, case, n_choices=1, group_prob=0.25, permanent_only=False
     def new_connector():
         i = n0 + len(new_nodes)
         new_nodes.append(i)
-        kinds[str(i)] = ['conn', rng.choice(SPECS), rng.random() < 0.35]
+        # small: degree lists that leave each connection choice a handful of valid sets, so that several connection choices
+        # with more than one valid set each stay within the row limit
+        kinds[str(i)] = ['conn', rng.choice(SMALL_SPECS), False] if small else ['conn', rng.choice(SPECS), rng.random() < 0.35]
         edges.append([rng.choice(hosts), i])
         return i
 
@@ -60,8 +65,8 @@ def add_connection(rng, case, n_choices=1, group_prob=0.25, permanent_only=False
                 out.append(new_connector())
         return out
     for _ in range(n_choices):
-        src = entries(rng.randint(1, 2))
-        tgt = entries(rng.randint(1, 3))
+        src = entries(1 if small else rng.randint(1, 2))
+        tgt = entries(2 if small else rng.randint(1, 3))
         tops_s = [e if isinstance(e, int) else e[0] for e in src]
         tops_t = [e if isinstance(e, int) else e[0] for e in tgt]
         excl = []
@@ -226,7 +231,7 @@ def explore(case, seed=0, max_sigma=8):
     return {'impl': {'admissible': len(adm), 'connection_sets': n_sets_total}, 'nontrivial': nt, 'tags': tags, 'queries': []}
 
 
-def explore_processor(case, seed=0, max_rows=400):
+def explore_processor(case, seed=0, max_rows=400, focus=None):
     """processor level: the architectures reachable through get_all_discrete_x + get_graph = the model's architectures
     (admissible assignment x one valid connection set per connection choice), one row each"""
     import itertools
@@ -299,6 +304,18 @@ def explore_processor(case, seed=0, max_rows=400):
         except Exception:
             pass
         handed_out.append(inst)
+    if focus == 'history':
+        # what this long-lived processor returned must be what a processor that decodes nothing else returns
+        sample = list(rows)
+        rng_for(seed, 'connproc-fresh').shuffle(sample)
+        for xr in sample[:8]:
+            try:
+                inst_f, _x, _a = GraphProcessor(b.dsg, encoder_type=SelChoiceEncoderType.COMPLETE).get_graph(xr)
+            except Exception as e:
+                return fail('decode-raises:%s' % type(e).__name__, 'row %s (fresh processor): %s: %s' % (xr, type(e).__name__, e))
+            if arch_of(inst_f) != first[tuple(xr)]:
+                return fail('decode-differs-from-fresh-processor', 'row %s: after decoding the rows before it %s, on a fresh processor %s' % (
+                    xr, first[tuple(xr)], arch_of(inst_f)))
     dup = [g for g in set(got) if got.count(g) > want_n.get(g, 1)][:2]
     if dup:
         return fail('two-rows-one-architecture', str(dup))
